@@ -235,6 +235,292 @@ let run_bdd (lines : string list) =
   with Exit -> ());
   ignore !evals; print_endline "end"
 
+
+(* ------------------------------------------------------------------ stand-alone structures *)
+let toks l = Array.of_list (List.filter (fun s -> s <> "") (String.split_on_char ' ' (String.trim l)))
+let is_body hd t = Array.length t > 0 && t.(0).[0] <> '#' && not (List.mem t.(0) hd)
+
+let run_table (lines : string list) =
+  let hdr = toks (List.find (fun l -> let t = toks l in Array.length t > 0 && t.(0) = "table") lines) in
+  let bits = int_of_string hdr.(1) and bb = int_of_string hdr.(2) and hk = n_of_int (int_of_string hdr.(3)) in
+  let t = Stdlib.ref (tbl_new (n_of_int bits) (n_of_int bb)) in
+  let fuel = nat_of_int ((1 lsl bits) + 2) in
+  let st () = Printf.sprintf "%d %d %d" (int_of_n !t.real_size) (int_of_n !t.last_index) (int_of_n !t.min_free) in
+  (try
+    List.iter (fun line ->
+      let tk = toks line in
+      if is_body ["table"] tk then
+        match tk.(0) with
+        | "put" ->
+          (match tbl_put hk fuel !t (n_of_int (int_of_string tk.(1))) with
+           | Ok (t', i) -> t := t'; Printf.printf "i %d %s\n" (int_of_n i) (st ())
+           | Full -> print_endline "panic full"; raise Exit
+           | Fuel -> print_endline "panic fuel"; raise Exit)
+        | "sweep" | "sweepv" ->
+          let k = int_of_string tk.(1) in
+          let args = List.init k (fun i -> int_of_string tk.(2 + i)) in
+          let alive =
+            if tk.(0) = "sweep" then List.map n_of_int args
+            else begin
+              let acc = Stdlib.ref [] in
+              for i = 1 to int_of_n !t.last_index do
+                let e = tget !t.data (n_of_int i) in
+                if e.occ && List.mem (int_of_n e.value) args then acc := n_of_int i :: !acc
+              done;
+              !acc
+            end in
+          (match tbl_sweep fuel !t alive with
+           | Ok t' -> t := t'; Printf.printf "s %s\n" (st ())
+           | _ -> print_endline "panic fuel"; raise Exit)
+        | "dump" ->
+          let b = Buffer.create 256 in
+          Buffer.add_string b "dump cells=";
+          let first = Stdlib.ref true in
+          for i = 1 to int_of_n !t.last_index do
+            let e = tget !t.data (n_of_int i) in
+            if e.occ then begin
+              if not !first then Buffer.add_char b ',';
+              first := false;
+              Buffer.add_string b (Printf.sprintf "%d:%d:%d" i (int_of_n e.value) (int_of_n e.next))
+            end
+          done;
+          Buffer.add_string b " buckets=";
+          first := true;
+          for i = 0 to int_of_n !t.nb - 1 do
+            let h = int_of_n (tget !t.buckets (n_of_int i)) in
+            if h <> 0 then begin
+              if not !first then Buffer.add_char b ',';
+              first := false;
+              Buffer.add_string b (Printf.sprintf "%d:%d" i h)
+            end
+          done;
+          print_endline (Buffer.contents b)
+        | o -> failwith ("bad table line " ^ o)) lines
+  with Exit -> ());
+  print_endline "end"
+
+let ref_of_raw x = { idx = n_of_int (x lsr 1); neg = (x land 1 = 1) }
+
+let run_cache (lines : string list) =
+  let hdr = toks (List.find (fun l -> let t = toks l in Array.length t > 0 && (t.(0) = "cache" || t.(0) = "kcache")) lines) in
+  let keyed = hdr.(0) = "kcache" in
+  let bits = int_of_string hdr.(1) in
+  let hk = if keyed then N0 else n_of_int (int_of_string hdr.(2)) in
+  let nc = Stdlib.ref (ncache_new (n_of_int ((1 lsl bits) - 1))) in
+  let kc = Stdlib.ref (kcache_new (n_of_int ((1 lsl bits) - 1))) in
+  let parse_key tk pos =
+    let a = ref_of_raw (int_of_string tk.(!pos + 1)) and b = ref_of_raw (int_of_string tk.(!pos + 2)) in
+    match tk.(!pos) with
+    | "I" -> let c = ref_of_raw (int_of_string tk.(!pos + 3)) in pos := !pos + 4; KIte (a, b, c)
+    | "C" -> pos := !pos + 3; KConstrain (a, b)
+    | _ -> pos := !pos + 3; KRestrict (a, b) in
+  List.iter (fun line ->
+    let tk = toks line in
+    if is_body ["cache"; "kcache"] tk then
+      match tk.(0) with
+      | "ins" ->
+        if keyed then begin
+          let pos = Stdlib.ref 1 in
+          let k = parse_key tk pos in
+          kc := kcache_insert !kc k (ref_of_raw (int_of_string tk.(!pos)))
+        end else nc := ncache_insert hk !nc (n_of_int (int_of_string tk.(1))) (n_of_int (int_of_string tk.(2)));
+        print_endline "i"
+      | "get" ->
+        if keyed then begin
+          let pos = Stdlib.ref 1 in
+          let k = parse_key tk pos in
+          let (c', o) = kcache_get !kc k in
+          kc := c';
+          Printf.printf "g %s %d %d %d\n" (match o with Some r -> string_of_int (raw r) | None -> "none") (int_of_n c'.hits) (int_of_n c'.faults) (int_of_n c'.misses)
+        end else begin
+          let (c', o) = ncache_get hk !nc (n_of_int (int_of_string tk.(1))) in
+          nc := c';
+          Printf.printf "g %s %d %d %d\n" (match o with Some v -> string_of_int (int_of_n v) | None -> "none") (int_of_n c'.hits) (int_of_n c'.faults) (int_of_n c'.misses)
+        end
+      | "clear" -> (if keyed then kc := kcache_clear !kc else nc := ncache_clear !nc); print_endline "c"
+      | "dump" ->
+        let b = Buffer.create 256 in
+        Buffer.add_string b "dump ";
+        let first = Stdlib.ref true in
+        for i = 0 to (1 lsl bits) - 1 do
+          if keyed then
+            (match tget !kc.ldata (n_of_int i) with
+             | Some (k, v) ->
+               if not !first then Buffer.add_char b ',';
+               first := false;
+               (match k with
+                | KIte (f, g, h) -> Buffer.add_string b (Printf.sprintf "%d:I:%d:%d:%d:%d" i (raw f) (raw g) (raw h) (raw v))
+                | KConstrain (f, g) -> Buffer.add_string b (Printf.sprintf "%d:C:%d:%d:%d" i (raw f) (raw g) (raw v))
+                | KRestrict (f, g) -> Buffer.add_string b (Printf.sprintf "%d:R:%d:%d:%d" i (raw f) (raw g) (raw v)))
+             | None -> ())
+          else
+            (match tget !nc.ldata (n_of_int i) with
+             | Some (k, v) ->
+               if not !first then Buffer.add_char b ',';
+               first := false;
+               Buffer.add_string b (Printf.sprintf "%d:%d:%d" i (int_of_n k) (int_of_n v))
+             | None -> ())
+        done;
+        print_endline (Buffer.contents b)
+      | o -> failwith ("bad cache line " ^ o)) lines;
+  print_endline "end"
+
+(* u64 status words are printed in hex; N -> hex string *)
+let n_to_hex (x : n) : string =
+  match x with
+  | N0 -> "0"
+  | Npos p ->
+    let rec bits p acc = match p with XH -> 1 :: acc | XO q -> bits q (0 :: acc) | XI q -> bits q (1 :: acc) in
+    let bs = bits p [] in
+    let len = List.length bs in
+    let pad = (4 - len mod 4) mod 4 in
+    let bs = List.init pad (fun _ -> 0) @ bs in
+    let rec go l acc = match l with
+      | a :: b :: c :: d :: r -> go r (acc ^ Printf.sprintf "%x" (8 * a + 4 * b + 2 * c + d))
+      | _ -> acc in
+    go bs ""
+
+let run_raw (lines : string list) =
+  let hdr = toks (List.find (fun l -> let t = toks l in Array.length t > 0 && t.(0) = "raw") lines) in
+  let hk = n_of_int (int_of_string hdr.(1)) in
+  let t = Stdlib.ref raw_new in
+  let state () =
+    let cap = int_of_n !t.rcap in
+    let b = Buffer.create 128 in
+    Buffer.add_string b (Printf.sprintf "%d %d %d [" (int_of_n !t.rlen) (int_of_n !t.rfree) cap);
+    for i = 0 to cap - 1 do
+      if i > 0 then Buffer.add_char b ',';
+      let st = (tget !t.slots (n_of_int i)).status in
+      let h = n_to_hex st in
+      Buffer.add_string b (if h = "ffffffffffffffff" then "F" else if h = "fffffffffffffffe" then "D" else h)
+    done;
+    Buffer.add_char b ']';
+    Buffer.contents b in
+  let bad = function Uninit -> "model:uninit" | Hang -> "model:hang" | AssertFailed -> "model:assert" | ROk _ -> "" in
+  (try
+    List.iter (fun line ->
+      let tk = toks line in
+      if is_body ["raw"] tk then begin
+        print_endline ("op " ^ String.trim line);
+        let nn i = n_of_int (int_of_string tk.(i)) in
+        let step o show =
+          match raw_step hk !t o with
+          | ROk (t', obs) -> t := t'; Printf.printf "%s | %s\n" (show obs) (state ())
+          | x -> print_endline ("panic " ^ bad x); raise Exit in
+        let opt = function Some v -> string_of_int (int_of_n v) | None -> "none" in
+        match tk.(0) with
+        | "ins" -> step (RIns (nn 1, nn 2)) (function OIns b -> if b then "i 1" else "i 0" | _ -> "?")
+        | "get" -> step (RGet (nn 1)) (function OGet o -> "g " ^ opt o | _ -> "?")
+        | "rem" -> step (RRem (nn 1)) (function ORem o -> "r " ^ opt o | _ -> "?")
+        | "clear" -> step RClear (fun _ -> "c")
+        | "reserve" ->
+          (match raw_reserve !t (nn 1) with
+           | ROk t' -> t := t'; Printf.printf "v | %s\n" (state ())
+           | x -> print_endline ("panic " ^ bad x); raise Exit)
+        | "iter" ->
+          let items = List.sort compare (List.map (fun (k, v) -> (int_of_n k, int_of_n v)) (raw_iter !t)) in
+          Printf.printf "t %d %s | %s\n" (int_of_n !t.rlen) (String.concat "," (List.map (fun (k, v) -> Printf.sprintf "%d:%d" k v) items)) (state ())
+        | o -> failwith ("bad raw line " ^ o)
+      end) lines
+  with Exit -> ());
+  print_endline "end"
+
+(* ---- eda *)
+let z_of_int i = if i = 0 then Z0 else if i > 0 then Zpos (pos_of_int i) else Zneg (pos_of_int (- i))
+let int_of_z = function Z0 -> 0 | Zpos p -> int_of_pos p | Zneg p -> - (int_of_pos p)
+
+let rec parse_boxed (tk : string array) (pos : int Stdlib.ref) : z bx =
+  let t = tk.(!pos) in
+  incr pos;
+  match t with
+  | "!" -> BxNot (parse_boxed tk pos)
+  | "~" -> bnot (parse_boxed tk pos)
+  | "&" -> let a = parse_boxed tk pos in let b = parse_boxed tk pos in BxAnd (a, b)
+  | "|" -> let a = parse_boxed tk pos in let b = parse_boxed tk pos in BxOr (a, b)
+  | "^" -> let a = parse_boxed tk pos in let b = parse_boxed tk pos in BxXor (a, b)
+  | "?" -> let a = parse_boxed tk pos in let b = parse_boxed tk pos in let c = parse_boxed tk pos in BxIte (a, b, c)
+  | _ -> BxTerm (z_of_int (int_of_string (String.sub t 1 (String.length t - 1))))
+
+let rec boxed_string = function
+  | BxTerm t -> string_of_int (int_of_z t)
+  | BxNot a -> "~" ^ boxed_string a
+  | BxAnd (a, b) -> Printf.sprintf "(%s & %s)" (boxed_string a) (boxed_string b)
+  | BxOr (a, b) -> Printf.sprintf "(%s | %s)" (boxed_string a) (boxed_string b)
+  | BxXor (a, b) -> Printf.sprintf "(%s ^ %s)" (boxed_string a) (boxed_string b)
+  | BxIte (a, b, c) -> Printf.sprintf "(%s ? %s : %s)" (boxed_string a) (boxed_string b) (boxed_string c)
+
+let rec plain_nots = function          (* does the tree use only Term / Not / And / Or ? *)
+  | BxTerm _ -> true | BxNot a -> plain_nots a | BxAnd (a, b) | BxOr (a, b) -> plain_nots a && plain_nots b | _ -> false
+
+let arena_debug (a : (z kind * nat list) list) : string =
+  let idx n = Printf.sprintf "Idx(%d)" (int_of_nat n) in
+  let node (k, js) = match k, js with
+    | NTerm t, _ -> Printf.sprintf "Term(%d)" (int_of_z t)
+    | NNot, [a] -> Printf.sprintf "Not(%s)" (idx a)
+    | NAnd, [a; b] -> Printf.sprintf "And(%s, %s)" (idx a) (idx b)
+    | NOr, [a; b] -> Printf.sprintf "Or(%s, %s)" (idx a) (idx b)
+    | NXor, [a; b] -> Printf.sprintf "Xor(%s, %s)" (idx a) (idx b)
+    | NIte, [a; b; c] -> Printf.sprintf "Ite(%s, %s, %s)" (idx a) (idx b) (idx c)
+    | _ -> "?" in
+  "Arena { exprs: [" ^ String.concat ", " (List.map node a) ^ "] }"
+
+let arena_string (a : (z kind * nat list) list) : string =
+  let arr = Array.of_list a in
+  let rec go i =
+    let (k, js) = arr.(i) in
+    let c n = go (int_of_nat n) in
+    match k, js with
+    | NTerm t, _ -> string_of_int (int_of_z t)
+    | NNot, [a] -> "~" ^ c a
+    | NAnd, [a; b] -> Printf.sprintf "(%s & %s)" (c a) (c b)
+    | NOr, [a; b] -> Printf.sprintf "(%s | %s)" (c a) (c b)
+    | NXor, [a; b] -> Printf.sprintf "(%s ^ %s)" (c a) (c b)
+    | NIte, [a; b; c'] -> Printf.sprintf "(%s ? %s : %s)" (c a) (c b) (c c')
+    | _ -> "?" in
+  go 0
+
+let rec direct_value = function
+  | BxTerm t -> Some (int_of_z t)
+  | BxNot a -> (match direct_value a with Some x -> Some (- x) | None -> None)
+  | BxAnd (a, b) -> (match direct_value a, direct_value b with Some x, Some y -> Some (x * y) | _ -> None)
+  | BxOr (a, b) -> (match direct_value a, direct_value b with Some x, Some y -> Some (x + y) | _ -> None)
+  | _ -> None
+
+let show_opt = function Some x -> Printf.sprintf "Some(%d)" x | None -> "None"
+
+let run_eda (lines : string list) =
+  List.iter (fun line ->
+    let tk = toks line in
+    if is_body ["eda"] tk then begin
+      let nn i = n_of_int (int_of_string tk.(i)) in
+      match tk.(0) with
+      | "arena" ->
+        let pos = Stdlib.ref 1 in
+        let e = parse_boxed tk pos in
+        let a = eda_arena e in
+        let ev = if plain_nots e then (match eda_eval e with Some z -> string_of_int (int_of_z z) | None -> "model:none") else "skip" in
+        let tb = match eda_to_boxed e with Some b -> boxed_string b | None -> "model:none" in
+        Printf.printf "a %s ;; s %s ;; b %s ;; e %s ;; tb %s\n" (arena_debug a) (arena_string a) (boxed_string e) ev tb
+      | "neg" ->
+        let pos = Stdlib.ref 1 in
+        let e = parse_boxed tk pos in
+        let n = bnot e in
+        let av = if plain_nots n then (match eda_eval n with Some z -> Some (int_of_z z) | None -> None) else None in
+        Printf.printf "n %s ;; %s %s %s\n" (boxed_string n) (show_opt (direct_value e)) (show_opt (direct_value n)) (show_opt av)
+      | "fromvar" -> Printf.printf "u %d\n" (int_of_n (from_var (nn 1)))
+      | "frominput" -> Printf.printf "u %d\n" (int_of_n (from_input (nn 1)))
+      | "not" -> Printf.printf "u %d\n" (int_of_n (snot (nn 1)))
+      | "info" ->
+        let s = nn 1 in
+        let b x = if x then 1 else 0 in
+        let r = Printf.sprintf "f %d %d %d %d %d" (int_of_n (sig_index s)) (b (is_const s)) (b (is_input s)) (b (is_var s)) (b (is_negated s)) in
+        let r = if is_var s then r ^ Printf.sprintf " var=%d" (int_of_n (sig_var s)) else r in
+        let r = if is_input s then r ^ Printf.sprintf " input=%d" (int_of_n (sig_input s)) else r in
+        print_endline r
+      | o -> failwith ("bad eda line " ^ o)
+    end) lines;
+  print_endline "end"
+
 let () =
   let file = Sys.argv.(1) in
   let ic = open_in file in
@@ -244,5 +530,12 @@ let () =
   let lines = List.rev !lines in
   let first = List.find_opt (fun l -> let l = String.trim l in l <> "" && l.[0] <> '#' && not (String.length l >= 5 && String.sub l 0 5 = "nvars")) lines in
   match first with
-  | Some l when String.length l >= 3 && String.sub l 0 3 = "cfg" -> run_bdd lines
-  | _ -> failwith "unknown domain"
+  | Some l ->
+    (match (toks l).(0) with
+     | "cfg" -> run_bdd lines
+     | "table" -> run_table lines
+     | "cache" | "kcache" -> run_cache lines
+     | "raw" -> run_raw lines
+     | "eda" -> run_eda lines
+     | _ -> failwith "unknown domain")
+  | None -> failwith "empty history"
